@@ -10,6 +10,7 @@
 package main
 
 import (
+	"bufio"
 	"encoding/json"
 	"fmt"
 	"os"
@@ -44,6 +45,30 @@ func netCtx() *nctx.NetCtx {
 	ctx.EnvCfg = &xconf.EnvConf{MetricSwitch: false}
 	return ctx
 }
+
+// ndw is an ndjson writer that can be flushed after every round.
+type ndw struct {
+	f *os.File
+	w *bufio.Writer
+}
+
+func newNdw(path string) (*ndw, error) {
+	f, err := os.Create(path)
+	if err != nil {
+		return nil, err
+	}
+	return &ndw{f: f, w: bufio.NewWriterSize(f, 1<<20)}, nil
+}
+func (t *ndw) Emit(e interface{}) {
+	b, err := json.Marshal(e)
+	if err != nil {
+		panic(err)
+	}
+	t.w.Write(b)
+	t.w.WriteByte('\n')
+}
+func (t *ndw) Flush() { t.w.Flush() }
+func (t *ndw) Close() { t.w.Flush(); t.f.Close() }
 
 func stats(m map[string]interface{}) {
 	b, _ := json.Marshal(m)
